@@ -5,6 +5,7 @@ use serde::{Deserialize, Serialize};
 use crate::checks::{self, Verdict};
 use crate::gen::{self, Profile};
 use crate::model::*;
+use crate::pipeprops;
 use crate::pipesim;
 use crate::report::{RunReport, RunStats};
 use crate::rng::{hash_bytes, Rng};
@@ -12,9 +13,11 @@ use crate::rng::{hash_bytes, Rng};
 #[derive(Clone, Debug, Serialize, Deserialize)]
 pub enum AnyCase {
     Pipe(PipeCase),
+    Multi(pipeprops::MultiCase),
+    Enum(pipeprops::EnumCase),
 }
 
-pub const ALL_PROPS: &[&str] = &["C01", "C02", "C06", "C07", "C08", "C09"];
+pub const ALL_PROPS: &[&str] = &["C01", "C02", "C06", "C07", "C08", "C09", "C11", "C13", "C14"];
 
 pub struct Budget {
     pub quick_runs: u64,
@@ -23,9 +26,17 @@ pub struct Budget {
 
 pub fn budget(prop: &str) -> Budget {
     match prop {
+        "C11" => Budget {
+            quick_runs: 4_000,
+            thorough_runs: 150_000,
+        },
+        "C14" => Budget {
+            quick_runs: 400,
+            thorough_runs: 12_000,
+        },
         _ => Budget {
-            quick_runs: 6_000,
-            thorough_runs: 400_000,
+            quick_runs: 20_000,
+            thorough_runs: 600_000,
         },
     }
 }
@@ -65,8 +76,14 @@ fn profile_for(prop: &str) -> Profile {
     p
 }
 
-pub fn gen_case(prop: &str, seed: u64, idx: u64, _tier: &str) -> AnyCase {
+pub fn gen_case(prop: &str, seed: u64, idx: u64, tier: &str) -> AnyCase {
     let mut rng = Rng::derive(seed, idx, prop);
+    match prop {
+        "C11" => return AnyCase::Multi(pipeprops::gen_c11(&mut rng, tier)),
+        "C13" => return AnyCase::Pipe(pipeprops::gen_c13(&mut rng)),
+        "C14" => return AnyCase::Enum(pipeprops::gen_c14(&mut rng)),
+        _ => {}
+    }
     let p = profile_for(prop);
     let mut case = gen::gen_pipe_case(&mut rng, &p);
     if case.kind == Kind::Bed && rng.chance(1, 3) {
@@ -117,6 +134,9 @@ fn pipe_stats(case: &PipeCase, out: &pipesim::WriteOutcome) -> RunStats {
 
 pub fn run_case(prop: &str, case: &AnyCase) -> RunReport {
     match case {
+        AnyCase::Multi(mc) => pipeprops::run_c11(mc),
+        AnyCase::Enum(ec) => pipeprops::run_c14(ec),
+        AnyCase::Pipe(pc) if prop == "C13" => pipeprops::run_c13(pc),
         AnyCase::Pipe(pc) => {
             let out = pipesim::run_write(pc, false);
             let verdict = match prop {
@@ -263,6 +283,8 @@ pub fn shrink_pipe(c: &PipeCase) -> Vec<PipeCase> {
 pub fn shrink(case: &AnyCase) -> Vec<AnyCase> {
     match case {
         AnyCase::Pipe(p) => shrink_pipe(p).into_iter().map(AnyCase::Pipe).collect(),
+        AnyCase::Multi(m) => pipeprops::shrink_c11(m).into_iter().map(AnyCase::Multi).collect(),
+        AnyCase::Enum(e) => pipeprops::shrink_c14(e).into_iter().map(AnyCase::Enum).collect(),
     }
 }
 
@@ -280,5 +302,7 @@ pub fn explicit_schedule(prop: &str, case: &AnyCase) -> AnyCase {
                 case.clone()
             }
         }
+        AnyCase::Multi(m) => AnyCase::Multi(pipeprops::explicit_c11(m)),
+        AnyCase::Enum(_) => case.clone(),
     }
 }
